@@ -725,9 +725,9 @@ class ValuesUnderIntervals(Harness):
 
 
 class GeometryOps(Harness):
-    """the Geometry helper (chromosome names given as text): mask, pileup, clip, sort and merge per chromosome"""
+    """the Geometry helper (chromosome names given as text): mask, pileup, clip, sort, merge and stranded extension per chromosome"""
     name = "geometry"
-    functions = ("Geometry.get_mask/get_pileup/clip/sort/merge_intervals", "GlobalOffset.from_local_interval/to_local_interval")
+    functions = ("Geometry.get_mask/get_pileup/clip/sort/merge_intervals/extend_to_size", "GlobalOffset.from_local_interval/to_local_interval")
     bounds = {"quick": "genome {chr1:3, chr2:2} and {chr1:2, chr10:1, chr2:3}; 1-2 intervals on chosen chromosomes (in genome order for merge) with "
                        "symbolic bounds, incl. an interval ending at a chromosome end followed by one starting at 0 of the next; merge distance 0-1",
               "thorough": "3 intervals"}
@@ -740,7 +740,7 @@ class GeometryOps(Harness):
             combos["g3"] += [[0, 1, 2]]
         for g, sets in combos.items():
             for ivs in sets:
-                for op in ("mask", "pileup", "clip", "sort", "merge0", "merge1"):
+                for op in ("mask", "pileup", "clip", "sort", "merge0", "merge1", "extend", "track"):
                     out.append(dict(genome=g, ivs=ivs, op=op))
                 if len(ivs) == 2 and ivs[0] != ivs[1]:
                     out.append(dict(genome=g, ivs=ivs[::-1], op="sort"))
@@ -755,6 +755,14 @@ class GeometryOps(Harness):
             else:
                 s = V.int(f"s{i}", 0, sizes[c] - 1); e = V.int(f"e{i}", 1, sizes[c])
             V.assume(s.t < e.t)
+            if skel["op"] == "track":          # bedGraph records: values, sorted and non-overlapping within a chromosome
+                V.int(f"v{i}", -3, 3)
+                if i and skel["ivs"][i - 1] == c:
+                    V.assume(s.t >= V.vars[f"e{i-1}"].t)
+            if skel["op"] == "extend":
+                V.int(f"neg{i}", 0, 1)
+                if not i:
+                    V.int("L", 1, max(sizes) + 1)
             if skel["op"].startswith("merge") and i and skel["ivs"][i - 1] == c:
                 V.assume(s.t >= V.vars[f"s{i-1}"].t)        # precondition of merging: sorted by start within a chromosome
 
@@ -768,6 +776,17 @@ class GeometryOps(Harness):
         g = Geometry(dict(genome))
         iv = Interval([names[c] for c in skel["ivs"]], ctx.arr([x[f"s{i}"] for i in range(m)], "int64"), ctx.arr([x[f"e{i}"] for i in range(m)], "int64"))
         op = skel["op"]
+        if op == "extend":
+            from bionumpy.datatypes import StrandedInterval
+            from bionumpy.encoded_array import EncodedArray
+            from bionumpy.encodings import StrandEncoding
+            siv = StrandedInterval(iv.chromosome, iv.start, iv.stop, EncodedArray(ctx.arr([x[f"neg{i}"] for i in range(m)], "uint8"), StrandEncoding))
+            r = g.extend_to_size(siv, x["L"])
+            return dict(rows=[[nm.to_string() for nm in r.chromosome], ctx.lst(r.start), ctx.lst(r.stop)], src=[ctx.lst(siv.start), ctx.lst(siv.stop)])
+        if op == "track":
+            from bionumpy.datatypes import BedGraph
+            r = g.get_track(BedGraph(iv.chromosome, iv.start, iv.stop, ctx.arr([x[f"v{i}"] for i in range(m)], "int64")))
+            return dict(dense={k: ctx.lst(v) for k, v in r.to_dict().items()})
         if op in ("mask", "pileup"):
             r = g.get_mask(iv) if op == "mask" else g.get_pileup(iv)
             return dict(dense={k: ctx.lst(v) for k, v in r.to_dict().items()})
@@ -789,7 +808,7 @@ class GeometryOps(Harness):
         S = [x[f"s{i}"].t for i in range(m)]
         E = [x[f"e{i}"].t for i in range(m)]
         conj = []
-        if op in ("mask", "pileup"):
+        if op in ("mask", "pileup", "track"):
             if list(out["dense"]) != names:
                 return False
             for ci, nm in enumerate(names):
@@ -800,10 +819,26 @@ class GeometryOps(Harness):
                     cov = [z3.And(S[i] <= p, p < E[i]) for i in range(m) if ivs[i] == ci]
                     if op == "mask":
                         conj.append(TB(col[p]) == z_or(cov))
+                    elif op == "track":
+                        val = z3.IntVal(0)
+                        for i in range(m):
+                            if ivs[i] == ci:
+                                val = z3.If(z3.And(S[i] <= p, p < E[i]), x[f"v{i}"].t, val)
+                        conj.append(TI(col[p]) == val)
                     else:
                         conj.append(TI(col[p]) == sum([z3.If(c, 1, 0) for c in cov], z3.IntVal(0)))
             return z_and(conj)
         chroms, starts, stops = out["rows"]
+        if op == "extend":
+            if chroms != [names[c] for c in ivs] or len(starts) != m or len(stops) != m:
+                return False
+            L = x["L"].t
+            for i, c in enumerate(ivs):
+                neg = x[f"neg{i}"].t == 1
+                conj.append(TI(starts[i]) == z3.If(neg, z3.If(E[i] - L > 0, E[i] - L, 0), S[i]))
+                conj.append(TI(stops[i]) == z3.If(neg, E[i], z3.If(S[i] + L < sizes[c], S[i] + L, sizes[c])))
+                conj += [TI(out["src"][0][i]) == S[i], TI(out["src"][1][i]) == E[i]]
+            return z_and(conj)
         if op == "clip":
             if chroms != [names[c] for c in ivs]:
                 return False
@@ -870,6 +905,11 @@ class GeometryOps(Harness):
         I = [(names[c], cx[f"s{i}"], cx[f"e{i}"]) for i, c in enumerate(ivs)]
         if isinstance(cout, Exc):
             return f"Geometry({genome}).{op} on {I} raised {cout}"
+        if op == "track":
+            exp = {nm: [sum(cx[f"v{i}"] for i, (n2, s, e) in enumerate(I) if n2 == nm and s <= p < e) for p in range(sizes[ci])] for ci, nm in enumerate(names)}
+            got = {k: [int(v) for v in col] for k, col in cout["dense"].items()}
+            recs = [t + (cx[f"v{i}"],) for i, t in enumerate(I)]
+            return None if got == exp else f"Geometry({genome}).get_track of bedGraph records {recs}: {got}, expected {exp}"
         if op in ("mask", "pileup"):
             exp = {nm: [sum(1 for n2, s, e in I if n2 == nm and s <= p < e) for p in range(sizes[ci])] for ci, nm in enumerate(names)}
             if op == "mask":
@@ -877,6 +917,12 @@ class GeometryOps(Harness):
             got = {k: [(bool(v) if op == "mask" else int(v)) for v in col] for k, col in cout["dense"].items()}
             return None if got == exp else f"Geometry.{op} of {I}: {got}, expected {exp}"
         got = list(zip(cout["rows"][0], [int(v) for v in cout["rows"][1]], [int(v) for v in cout["rows"][2]]))
+        if op == "extend":
+            L = cx["L"]
+            exp = [(n, max(e - L, 0), e) if cx[f"neg{i}"] == 1 else (n, s, min(s + L, genome[n])) for i, (n, s, e) in enumerate(I)]
+            if got != exp:
+                return f"Geometry({genome}).extend_to_size of {[(t, '+-'[cx[f'neg{i}']]) for i, t in enumerate(I)]} to {L}: {got}, expected {exp}"
+            return None
         if op == "clip":
             exp = [(n, max(s, 0), min(e, genome[n])) for n, s, e in I]
         elif op == "sort":
